@@ -596,8 +596,7 @@ class ModelMixin:
             return recv
         if isinstance(recv, Sym) and recv.kind == "opt":
             if meth == "keys":
-                k = self.bound("k", T.Key)
-                return KSetV([("big", [k], T.haskey_top(recv.term, k), [("one", k)])])
+                return KSetV([("term", T.topkeys(recv.term))])
             if meth == "get":
                 return Sym("val", T.dget(recv.term, self.as_key(args[0])))
         if isinstance(recv, Sym) and recv.kind == "val" and meth in ("items", "keys", "values"):
